@@ -469,7 +469,14 @@ func genFaultCase(r *rand.Rand, cfg Cfg) Case {
 	if r.Intn(6) == 0 {
 		return genInterruptedDeleteCase(r, cfg)
 	}
-	cfg = noCache(cfg)
+	// one case in four runs over a node cache that is cold when the version is read back: a load
+	// that fails must leave nothing in the cache that the retried call (or another tree) then finds
+	cold := r.Intn(4) == 0
+	if cold {
+		cfg.Cache = pick(r, []string{"big", "tiny"})
+	} else {
+		cfg = noCache(cfg)
+	}
 	uni := Universe(r, cfg, 5+r.Intn(50))
 	ops := []string{"new 0"}
 	live := map[uint64]uint64{}
@@ -477,7 +484,11 @@ func genFaultCase(r *rand.Rand, cfg Cfg) Case {
 		live[uni[i]] = uint64(r.Intn(3))
 		ops = append(ops, opIns(0, uni[i], live[uni[i]]))
 	}
-	ops = append(ops, "root 0 0", "load 0 0", "load 0 2") // slot 2 keeps the first version: the old side of diffs
+	ops = append(ops, "root 0 0")
+	if cold {
+		ops = append(ops, "coldcache")
+	}
+	ops = append(ops, "load 0 0", "load 0 2") // slot 2 keeps the first version: the old side of diffs
 	nroot := 1
 	for i := 0; i < 10+r.Intn(25); i++ {
 		if r.Intn(6) == 0 { // back to a fully persisted tree; otherwise partly dirty
